@@ -13,11 +13,15 @@ package blockl
 
 import (
 	"fmt"
+	"os"
 	"runtime"
+	"runtime/debug"
+	"runtime/pprof"
 	"sort"
 	"strings"
 	"sync"
 	"testing"
+	"time"
 
 	"github.com/cenkalti/rain/v2/internal/logger"
 	"github.com/cenkalti/rain/v2/zzverif/core"
@@ -150,6 +154,9 @@ func parallelChunks(n int, fn func(worker, chunk int)) {
 
 func TestC18(t *testing.T) {
 	logger.Disable()
+	// every case allocates a few small short-lived objects and the live heap is tiny: with the default
+	// GOGC the collector would run almost continuously.
+	debug.SetGCPercent(2000)
 	rep := core.NewReport("C18", "blockl", "model_checking")
 	rep.Rule = "bounded-exhaustive, nothing sampled. " +
 		"(1) stree: every ordered list (with repetitions) of <=N closed intervals [f,t], f<=t, endpoints on a 7-point lattice, under a dense value map (1..7) and a sparse one containing 0 and 2^32-1, built exactly like Blocklist.load (AddRange*, Build, copy), x every lattice point, every neighbour and every gap midpoint. " +
@@ -168,11 +175,26 @@ func TestC18(t *testing.T) {
 		"lines longer than bufio.Scanner's 64 KiB limit and lists beyond 3 lines / intervals beyond the stated bounds are not enumerated",
 	}
 	col := newCollector()
+	if pf := os.Getenv("VERIF_C18_DEBUG_PROF"); pf != "" { // debugging aid only
+		f, _ := os.Create(pf)
+		pprof.StartCPUProfile(f)
+		defer pprof.StopCPUProfile()
+	}
+	t0 := time.Now()
+	lap := func(what string) {
+		fmt.Printf("C18/blockl: %-10s done in %.1fs\n", what, time.Since(t0).Seconds())
+		t0 = time.Now()
+	}
 	streePart(rep, col)
+	lap("stree")
 	blocklistPart(rep, col)
+	lap("blocklist")
 	resolverPart(rep, col)
+	lap("resolver")
 	addrlistPart(rep, col)
+	lap("addrlist")
 	col.flush(rep)
+	pprof.StopCPUProfile()
 	rep.Finish()
 }
 
